@@ -242,6 +242,9 @@ def r2_r4_orderedset(rep, src, tier='quick'):
               ('add', [A2], ['Alpha'], None, [A]), ('add', [Z], ['Zeta'], None, []),
               ('order_first', [B], ['Beta', 'Alpha'], None, [A, B]), ('order_last', [A2], ['Beta', 'Alpha'], None, [A, B]),
               ('order_before', [B, A2], ['Beta', 'Alpha'], None, [A, B]), ('order_after', [A2, B], ['Beta', 'Alpha'], None, [A, B])]
+    # ... and the set without keys (a fresh paragraph, or one whose last field was deleted): every key is missing
+    cases += [('order_first', [Z], None, 'KeyError', []), ('order_last', [Z], None, 'KeyError', []), ('remove', [Z], None, 'KeyError', []),
+              ('order_before', [Z, A], None, 'KeyError', []), ('order_after', [A, Z], None, 'KeyError', [])]
     if tier == 'thorough':
         # every operation with every combination of present (other spelling) / absent arguments on sets of 0..4 keys,
         # expected outcome from a reference model (python list of spellings)
@@ -418,6 +421,8 @@ def r1_key_normalisation(rep, src):
             rep.fail(rule, fn.site, what, 'raises %s: the key is not found although the mapping holds it in another spelling (case-insensitive lookup lost)' % exc
                      if exc == 'KeyError' else 'raises %s' % exc, where=fn.where)
             continue
+        if isinstance(r, H.PyIter):
+            r = r.drain()          # (a generator: its items)
         got = r
         if isinstance(r, list):
             got = [x.spelling if isinstance(x, H.Key) else x for x in r]
